@@ -669,6 +669,111 @@ theorem release_installs (s : S) (tid : Nat) (dest : String) (hw : WFs s) (hpc :
   refine ⟨by rw [sp.cur, hav], by rw [sp.cb, hav], ?_⟩
   rw [hav]; exact List.mem_append_left _ List.mem_cons_self
 
+/-! ### arrival order -/
+
+/-- one event from an ordered state: every `SetDest` entered during it is for a task that arrived after the one a `SetDest`
+was last entered for (`b`), and before or at the new last one (`b'`) -/
+theorem step_ord (s : S) (b : Int) (ev : Ev) (h : OrdInv s b) :
+    ∃ b', OrdInv (step s ev).1 b' ∧ b ≤ b' ∧
+      ∀ d t, OutS.begin d (some t) ∈ (step s ev).2 → b < (t.tid : Int) ∧ (t.tid : Int) ≤ b' := by
+  unfold step
+  by_cases hex : s.pc = .exited
+  · simp only [hex, if_true]; exact ⟨b, h, le_refl _, by intro d t hm; cases hm⟩
+  · simp only [hex, if_false]
+    -- an event that updates the queue and wakes the goroutine once
+    have once : ∀ (s1 : S) (pre : List OutS), OrdInv s1 b → (∀ d t, OutS.begin d (some t) ∉ pre) →
+        ∃ b', OrdInv (wake s1).1 b' ∧ b ≤ b' ∧
+          ∀ d t, OutS.begin d (some t) ∈ pre ++ (wake s1).2 → b < (t.tid : Int) ∧ (t.tid : Int) ≤ b' := by
+      intro s1 pre h1 hpre
+      obtain ⟨b', hi, hle, hb⟩ := wake_ord s1 b h1
+      refine ⟨b', hi, hle, ?_⟩
+      intro d t hm
+      rcases List.mem_append.mp hm with hm | hm
+      · exact absurd hm (hpre d t)
+      · obtain ⟨h1', h2'⟩ := hb d t hm; exact ⟨h1', le_of_eq h2'⟩
+    cases ev with
+    | add c dest job deadline => simpa using once _ [] (ord_addTask s b c dest job deadline h) (by intro d t hm; cases hm)
+    | remove c => simpa using once _ [] (ord_cancel s b c h) (by intro d t hm; cases hm)
+    | tick target =>
+      simp only
+      -- two wakes: at the deadline of the task in service, and at the end of the advance
+      have h1 : ∃ b1, OrdInv (tickHead s target).1 b1 ∧ b ≤ b1 ∧
+          ∀ d t, OutS.begin d (some t) ∈ (tickHead s target).2 → b < (t.tid : Int) ∧ (t.tid : Int) ≤ b1 := by
+        unfold tickHead
+        split
+        · split
+          · obtain ⟨b1, hi, hle, hb⟩ := wake_ord _ b (ord_now s b _ h)
+            exact ⟨b1, hi, hle, fun d t hm => ⟨(hb d t hm).1, le_of_eq (hb d t hm).2⟩⟩
+          · exact ⟨b, h, le_refl _, by intro d t hm; cases hm⟩
+        · exact ⟨b, h, le_refl _, by intro d t hm; cases hm⟩
+      obtain ⟨b1, hi1, hle1, hb1⟩ := h1
+      obtain ⟨b2, hi2, hle2, hb2⟩ := wake_ord _ b1 (ord_now _ b1 (max (tickHead s target).1.now target) hi1)
+      refine ⟨b2, hi2, le_trans hle1 hle2, ?_⟩
+      intro d t hm
+      rcases List.mem_append.mp hm with hm | hm
+      · obtain ⟨x, y⟩ := hb1 d t hm; exact ⟨x, le_trans y hle2⟩
+      · obtain ⟨x, y⟩ := hb2 d t hm; exact ⟨lt_of_le_of_lt hle1 x, le_of_eq y⟩
+    | share diff =>
+      simp only
+      cases hcb : s.cb with
+      | none => exact ⟨b, h, le_refl _, by intro d t hm; cases hm⟩
+      | some tid =>
+        simp only
+        have := once _ [OutS.base (.onSubmit tid diff)] (ord_credit s b tid diff h) (by intro d t hm; simp at hm)
+        simpa using this
+    | release =>
+      simp only
+      exact once _ _ (ord_arrive s b h hex) (fun d t hm => (arrive_spec s t.cid h.wf hex).2.2 d t hm rfl)
+    | proxyExit =>
+      obtain ⟨hi, hno⟩ := ord_leave s b h
+      exact ⟨b, hi, le_refl _, fun d t hm => absurd hm (hno d t)⟩
+
+theorem ord_init (primary : String) : ∃ b, OrdInv (init primary).1 b := by
+  have h0 : OrdInv ({ primary := primary, cur := primary } : S) (-1) :=
+    ⟨⟨rfl, fun _ => rfl, fun h => (by cases h), fun tid d hp => (by cases hp)⟩, ⟨(by simp), (by intro t ht; cases ht)⟩,
+     fun h => (by cases h), fun _ t ht => (by cases ht), (by simp)⟩
+  have sp := runLoop_spec 3 ({ primary := primary, cur := primary } : S) rfl (by simp)
+  -- nothing is queued at start-up: the goroutine goes to the primary destination
+  refine ⟨-1, loop_wf _ _ _ sp rfl, ordered_suffix _ _ h0.ord sp.suffix (by rw [init, runLoop_serial]), ?_, ?_, ?_⟩
+  · intro ht
+    have := sp.suffix
+    simp only [List.suffix_nil] at this
+    have hne := (loop_wf _ _ _ sp rfl).head ht
+    exact absurd this hne
+  · intro _ t ht
+    have := sp.suffix.subset ht
+    cases this
+  · rw [init, runLoop_serial]; simp
+
+/-- **tasks are put in service in arrival order, each at most once**: in every history of events and releases, a `SetDest`
+entered at a later step is for a task that arrived later than any task a `SetDest` was entered for at an earlier step -/
+theorem begun_in_arrival_order (s : S) (b : Int) (evs : List Ev) (h : OrdInv s b) :
+    (∀ outs ∈ PRV.Model.SchedSlow.run s evs, ∀ d t, OutS.begin d (some t) ∈ outs → b < (t.tid : Int)) ∧
+    (PRV.Model.SchedSlow.run s evs).Pairwise fun o1 o2 =>
+      ∀ d1 t1 d2 t2, OutS.begin d1 (some t1) ∈ o1 → OutS.begin d2 (some t2) ∈ o2 → t1.tid < t2.tid := by
+  induction evs generalizing s b with
+  | nil => exact ⟨(by intro outs ho; cases ho), List.Pairwise.nil⟩
+  | cons e es ih =>
+    obtain ⟨b', hi, hle, hb⟩ := step_ord s b e h
+    obtain ⟨ih1, ih2⟩ := ih (step s e).1 b' hi
+    unfold PRV.Model.SchedSlow.run
+    refine ⟨?_, List.Pairwise.cons ?_ ih2⟩
+    · intro outs ho d t hm
+      rcases List.mem_cons.mp ho with ho | ho
+      · subst ho; exact (hb d t hm).1
+      · exact lt_of_le_of_lt hle (ih1 outs ho d t hm)
+    · intro o2 ho2 d1 t1 d2 t2 hm1 hm2
+      have x := (hb d1 t1 hm1).2
+      have y := ih1 o2 ho2 d2 t2 hm2
+      omega
+
+/-- … from start-up, for every history -/
+theorem served_in_arrival_order (primary : String) (evs : List Ev) :
+    (PRV.Model.SchedSlow.run (init primary).1 evs).Pairwise fun o1 o2 =>
+      ∀ d1 t1 d2 t2, OutS.begin d1 (some t1) ∈ o1 → OutS.begin d2 (some t2) ∈ o2 → t1.tid < t2.tid := by
+  obtain ⟨b, h⟩ := ord_init primary
+  exact (begun_in_arrival_order _ b evs h).2
+
 -- the hypotheses are met: a task is added and removed while the scheduler is inside `SetDest(primary)`
 example : (PRV.Model.SchedSlow.run (init "p").1 [.add "c0" "d0" 1000 50, .remove "c0", .release, .release]) =
     [[], [], [OutS.base (.setDest "p" false), OutS.begin "p" none], [OutS.base (.setDest "p" false)]] := by
